@@ -163,3 +163,38 @@ func (q *Queue) NextDue() (time.Time, bool) {
 	}
 	return min, !min.IsZero()
 }
+
+// QueueSnapshot captures the queue content.
+type QueueSnapshot struct {
+	ready    []string
+	delayed  map[string]time.Time
+	requeues map[string]int
+}
+
+// Snapshot captures the queue (only valid between steps: nothing is processing).
+func (q *Queue) Snapshot() *QueueSnapshot {
+	s := &QueueSnapshot{ready: q.Ready(), delayed: q.Delayed(), requeues: map[string]int{}}
+	for k, v := range q.requeues {
+		s.requeues[k] = v
+	}
+	return s
+}
+
+// Restore resets the queue to a snapshot.
+func (q *Queue) Restore(s *QueueSnapshot) {
+	q.ready = map[string]bool{}
+	for _, k := range s.ready {
+		q.ready[k] = true
+	}
+	q.processing = map[string]bool{}
+	q.dirty = map[string]bool{}
+	q.delayed = map[string]time.Time{}
+	for k, v := range s.delayed {
+		q.delayed[k] = v
+	}
+	q.requeues = map[string]int{}
+	for k, v := range s.requeues {
+		q.requeues[k] = v
+	}
+	q.next = ""
+}
